@@ -248,6 +248,15 @@ theorem visible_of_global_call_from_function (pkg bp : Nat) (cz : Zone) (s : Lis
       = ⟨[], [], ⟨PKG_BADGE, pkg⟩ :: (if bp = FRAME_OWNED_MARKER then [] else [⟨GC_BADGE, bp⟩])⟩ :: cz.chain := by
   simp [createAuthZone, visible, localImplicit, Zone.pkg, Zone.gc, Zone.parent]
 
+/-- non-vacuity of `Covers`: one more proof in the manifest zone covers the old situation -/
+example : Covers exCallee (createAuthZone (.function 0 1 (exTx.push ⟨11, true, 7, []⟩)) true [] []) := by
+  intro v hv
+  simp only [exCallee, visible_of_global_call_from_function, exTx, chain_none, Zone.push, List.mem_cons,
+    List.not_mem_nil, or_false] at hv ⊢
+  rcases hv with rfl | rfl
+  · exact ⟨_, Or.inl rfl, ⟨fun _ h => h, fun _ h => h, fun _ h => h⟩⟩
+  · exact ⟨_, Or.inr rfl, ⟨fun q hq => List.mem_append_left _ hq, fun _ h => h, fun _ h => h⟩⟩
+
 /-- Consequently, with an additional proof in the manifest's auth zone, every well-typed call that
     was authorised is still authorised. -/
 theorem extra_manifest_proof_keeps_authorization (tz : Zone) (pkg bp : Nat) (p : Proof) (r : Rule)
